@@ -18,6 +18,27 @@ CLAIM = {
              "unchanged), C11_empty (empty glob = IO NotFound), C11_order_sorted / C11_order_in_place / C11_dotfile (component-wise "
              "PathBuf order; `?` never and `*` only as the empty string in front of a leading dot; the repaired FakeFileSystem drops "
              "those too), C11_terminates / C11_cycle (fuel > number of files: never fuelOut, cycles end in RecursiveInclude). "
+             "At the level of file CONTENTS (texts, parsed by the parser model): parseEntries_append_at - if `a` and `b` are "
+             "ledgers (parse_ledger reads ea / eb) and the cut is an EntryBoundary (one text empty; or `a` ends with a line feed "
+             "and: `b` does not start with a comment prefix, or `a` ends with a blank line, or the last entry of `a` is not a "
+             "comment) then parse_ledger(a ++ b) reads ea ++ eb; parseEntries_append is the same for the coarser, purely textual "
+             "Boundary. Proved through a locality theorem for every rule of the grammar (entry_ext / loc_parseLedgerEntry: an "
+             "entry of `a` is read from `a ++ b` exactly as from `a`, including the value-expression parser with its different "
+             "fuel, lot notes that run over several lines, cut_err) and follows_of_ledger (a ledger never starts with an indented "
+             "non-blank line, so the last entry of `a` cannot capture a posting / detail line). The condition cannot be dropped "
+             "(boundary_needed_comment: two top-level comments merge into one entry across a cut after a line end; "
+             "boundary_needed_lineEnd: a cut inside a line; cut_before_posting: an indented line is not a ledger of its own and "
+             "would be read as a posting of the last transaction). C11_cut_text / C11_split_text / C11_split_text_glob: a ledger "
+             "text `pre ++ seg ++ post` in one file and the same text with `seg` cut out at entry boundaries into other files "
+             "(plain, nested, via `..`, or k files matched by a glob) and replaced by the paragraph `include g` + empty line "
+             "deliver the same entry sequence - the one parse_ledger reads from the unsplit text - hence the same `process` and "
+             "every report (C11_split_text_reports). entryBoundary_iff: for ledgers `a` (no carriage returns, ending with a line "
+             "feed) and `b`, parse_ledger(a ++ b) reads ea ++ eb IF AND ONLY IF the cut is an EntryBoundary (otherwise the last "
+             "comment of `a` reads on through the first comment of `b` and the joined text has one entry less: parseEntries_merge). "
+             "NOT proved: blank lines that end in CR LF are not recognised as `a ends with a blank line` (sufficiency still holds "
+             "through the other two alternatives; the `only if` direction assumes no carriage return in `a`); cuts that are not "
+             "after a line feed (shown harmful by witness only); the text theorems are about the parser MODEL (validated against "
+             "the real parser by the C05/C06 correspondence streams). "
              "Correspondence every run: generated order-sensitive ledgers (running-balance assertions, alias declarations) are cut "
              "at entry boundaries into trees (depth <= 3, sub-directories, `../`, `./`, `//`, absolute, literal and glob includes "
              "with sort traps, dot-file decoys, `[..]`/`**` through recorded glob answers), materialised as a FakeFileSystem map and "
@@ -38,7 +59,18 @@ THEOREMS = [NS + t for t in [
     "C11_order_sorted", "C11_order_in_place", "C11_dotfile", "C11_dotfile_in_path", "C11_wildcard_no_separator",
     "C11_dotfile_fake", "C11_terminates", "C11_terminates_load", "C11_cycle", "C11_self_include", "canonFake_idem",
     "C11_fake_load_eq_expand", "C11_fake_terminates", "expand_mono", "C11_terminates_canon", "resolveReal_fixed",
-    "prodCanon_idem", "C11_prod_load_eq_expand", "C11_split_fake_prod", "C11_prod_terminates"]]
+    "prodCanon_idem", "C11_prod_load_eq_expand", "C11_split_fake_prod", "C11_prod_terminates",
+    # C11 at the level of file contents (texts cut at entry boundaries)
+    "C11_cut_text", "C11_split_text", "C11_split_text_glob", "C11_split_text_reports", "expand_text_single",
+    "expandsTo_pieceFiles", "parseEntries_cut", "parseEntries_includeText", "parsedOf_of_parseEntries"]] + [
+    "Okane.Parse." + t for t in [
+        "parseEntries_append_at", "parseEntries_append", "parseEntries_append3_at", "parseEntries_append3",
+        "parseEntries_flatten", "boundary_of_boundaryB", "Boundary.entryBoundary", "follows_of_ledger",
+        "boundary_needed_lineEnd", "boundary_needed_comment", "cut_before_posting",
+        "entry_ext", "topComment_ext_ne", "loc_parseLedgerEntry", "loc_transaction", "locOk_posting", "wl_valueExpr",
+        "verticalSpaces_append", "entryBoundary_iff", "parseEntries_merge", "iterE_merge", "topComment_merge",
+        "comment_of_parseLedgerEntry", "blankTail_of_sep",
+        "iterE_append", "iterE_eq", "parseEntries_eq_iterE"]]
 
 BASE = "/verif/work/C11/fs/"
 
